@@ -28,3 +28,6 @@ def nontrivial(case, model_out):
         return True
     depth = int(case.segs.split(";")[0].split()[5], 16)
     return case.tag != "honest" or depth >= 1
+
+# fids whose cases apply hint overrides addressed by (generator kind, occurrence) - see runner.default_judge
+OVERRIDE_FIDS = {"102"}
